@@ -88,11 +88,13 @@ class CFG:
             self._connect(dangling, n.id)
             self._exc_edges(n.id)
             breaks = []
-            self._loops.append((n.id, breaks))
+            # the latch collects the ends of the body (keeping their own edge labels) and `continue`
+            latch = self._new(None, "latch")
+            self._loops.append((latch.id, breaks))
             body_out = self._seq(st.body, [(n.id, "true")])
             self._loops.pop()
-            for a, label in body_out:
-                self._edge(a, n.id, "back")
+            self._connect(body_out, latch.id)
+            self._edge(latch.id, n.id, "back")
             out = [(n.id, "false")]
             if st.orelse:
                 out = self._seq(st.orelse, out)
@@ -150,7 +152,7 @@ class CFG:
             return []
         if isinstance(st, ast.Continue):
             if self._loops:
-                self._edge(n.id, self._loops[-1][0], "back")
+                self._edge(n.id, self._loops[-1][0], "continue")
             return []
         self._exc_edges(n.id)
         return [(n.id, "normal")]
